@@ -165,7 +165,15 @@ def parse(path):
         if not m:
             raise SpecError('%s:%d cannot parse: %s' % (path, i, ln))
         key, arg, val = m.group(1), m.group(2).strip(), m.group(3).strip()
-        if key == 'requires':
+        if key == 'qual':
+            if not cur.opts.get('as'):
+                cur.cname = cur.qual
+            cur.qual = val
+            lastkey = None
+        elif key == 'sig':
+            cur.sig = val
+            lastkey = None
+        elif key == 'requires':
             cur.requires.append(val)
             lastkey = (lambda c: (lambda s: c.requires.__setitem__(-1, c.requires[-1] + s)))(cur)
         elif key == 'ensures':
@@ -208,6 +216,13 @@ def parse(path):
         else:
             raise SpecError('%s:%d unknown key %s' % (path, i, key))
     flush_raw()
+    for fs in u.functions:
+        for anchor, g in fs.ghosts.items():
+            for st in [x.strip() for x in re.split(r';\s*(?:\n|$)', g) if x.strip()]:
+                if not re.match(r'(VERIF_LEMMA\(|ghost_\w+(\[[^\]]*\]|\.\w+)*\s*(=|\+=|-=)|(real_t|c_int|c_long|c_ulong|c_uint|_Bool|unsigned long|struct \w+)\s+ghost_\w+|if\s*\(.*\)\s*ghost_\w+|GHOST_\w+\()', st):
+                    raise SpecError('%s: ghost statement may only state lemmas or assign ghost_ variables: %r' % (path, st))
+        if fs.ensures and not any('\\thrown' in e for _, e in fs.ensures) and 'maythrow' not in fs.opts:
+            fs.ensures.append(('nothrow', '!\\thrown'))
     if not u.name or not u.tu:
         raise SpecError('%s: @unit and @tu are required' % path)
     return u
